@@ -62,7 +62,8 @@ type c22env struct {
 	multi   bool // the universe has a tx with >= 2 inputs
 	maxPool int
 	wasFull bool // len(pool) reached maxNewTxNum at some point of this case
-	removed bool // RemoveTransaction took a pooled tx out at some point of this case
+	removedAt  map[int]int // tx code -> index of the last op in which RemoveTransaction took it out of the pool
+	insertedAt map[int]int // tx code -> index of the last op that put it into the orphan table (submit -> orphan)
 	nSig    map[string]int
 }
 
@@ -103,7 +104,8 @@ func (e *c22env) reset(line string) error {
 	e.txs, e.order, e.conf = map[int]*c22tx{}, nil, map[int]bool{}
 	e.outCode, e.txCode = map[bc.Hash]int{}, map[bc.Hash]int{}
 	e.tAfter, e.multi = nil, false
-	e.maxPool, e.wasFull, e.removed = maxPool, false, false
+	e.maxPool, e.wasFull = maxPool, false
+	e.removedAt, e.insertedAt = map[int]int{}, map[int]int{}
 	for _, o := range conf {
 		e.conf[o] = true
 	}
@@ -293,8 +295,26 @@ func c22has(xs []int, x int) bool {
 func (e *c22env) oracle(op string, d c22dump) {
 	avail := func(o int) bool { _, ok := d.utxo[o]; return ok || e.conf[o] }
 	// cause tag of a violated clause: the two recorded open causes are (P22) a pool that reached
-	// its limit inside processOrphans and (B22) a pooled parent that was removed after its index
-	// bucket had been deleted (only multi-input orphans can be hit); anything else is unlisted
+	// its limit inside processOrphans and (B22) a pooled PARENT of this orphan that was removed
+	// AFTER the orphan was last put into the orphan table (its index bucket had been deleted when
+	// the parent arrived; a re-submission of the orphan re-indexes it and ends the excuse; only
+	// multi-input orphans can be hit); anything else is unlisted
+	parentRemovedSince := func(t int) bool {
+		x, ok := e.txs[t]
+		if !ok {
+			return false
+		}
+		ins, had := e.insertedAt[t]
+		for _, p := range x.ins {
+			if p >= 1000 {
+				continue
+			}
+			if at, ok := e.removedAt[p/10]; ok && (!had || at > ins) {
+				return true
+			}
+		}
+		return false
+	}
 	arity := func(t int) string {
 		multi := false
 		if x, ok := e.txs[t]; ok && len(x.ins) >= 2 {
@@ -303,7 +323,7 @@ func (e *c22env) oracle(op string, d c22dump) {
 		switch {
 		case e.wasFull:
 			return "after the pool limit was reached"
-		case multi && e.removed:
+		case multi && parentRemovedSince(t):
 			return "multi-input orphan after a pooled transaction was removed"
 		case multi:
 			return "multi-input orphan"
@@ -445,6 +465,7 @@ func (e *c22env) line(l string) {
 				ret = "error:" + err.Error()
 			case isOrphan:
 				ret = "orphan"
+				e.insertedAt[n] = len(e.tAfter)
 			default:
 				ret = "pooled"
 			}
@@ -452,7 +473,7 @@ func (e *c22env) line(l string) {
 	case "remove":
 		if t, ok := e.txs[n]; ok {
 			if e.pool.IsTransactionInPool(&t.tx.ID) {
-				e.removed = true
+				e.removedAt[n] = len(e.tAfter)
 			}
 			e.pool.RemoveTransaction(&t.tx.ID)
 		} else {
@@ -597,6 +618,44 @@ func runC22(c *Ctx) {
 			sched = append(sched, fmt.Sprintf("submit %d", e.order[j]))
 			for c.Rng.Intn(100) < 35 {
 				sched = append(sched, "")
+			}
+		}
+		// dedicated shape (1/5 of the cases that allow it): a multi-parent tx C is parked as an orphan
+		// while one parent A is pooled, A is removed, C is SUBMITTED AGAIN (must be re-indexed under
+		// A's output too), then the other parent and A arrive: C has to be promoted
+		if c.Rng.Intn(5) == 0 {
+			var cands [][3]int // (C, A, B or 0)
+			for _, id := range e.order {
+				t := e.txs[id]
+				if len(t.ins) < 2 {
+					continue
+				}
+				for i, p := range t.ins {
+					if p < 1000 && e.txs[p/10] != nil {
+						b := 0
+						for j, q := range t.ins {
+							if j != i && q < 1000 && e.txs[q/10] != nil && q/10 != p/10 {
+								b = q / 10
+							}
+						}
+						cands = append(cands, [3]int{id, p / 10, b})
+					}
+				}
+			}
+			if len(cands) > 0 {
+				cc := cands[c.Rng.Intn(len(cands))]
+				sched = nil
+				for _, id := range e.order {
+					if id < cc[0] && id != cc[2] {
+						sched = append(sched, fmt.Sprintf("submit %d", id))
+					}
+				}
+				sched = append(sched, fmt.Sprintf("submit %d", cc[0]), fmt.Sprintf("remove %d", cc[1]), fmt.Sprintf("submit %d", cc[0]))
+				if cc[2] != 0 {
+					sched = append(sched, fmt.Sprintf("submit %d", cc[2]))
+				}
+				sched = append(sched, fmt.Sprintf("submit %d", cc[1]))
+				c.Count("schedule/orphan re-submitted after a pooled parent was removed")
 			}
 		}
 		for n := c.Rng.Intn(k + 3); n > 0; n-- {
